@@ -34,6 +34,8 @@ def render_task(ns: str, name: str, tdef: dict, ver: int, extra_opts: Optional[d
     opts = [f'name="{name}"', f'namespace="{ns}"']
     if units:
         opts.append(f"limits={units!r}")
+    if tdef.get("scope", "BACKEND") != "BACKEND":
+        opts.append(f'cache_scope="{tdef["scope"]}"')
     for k, val in (tdef.get("opts") or {}).items():
         opts.append(f"{k}={val!r}")
     for k, val in (extra_opts or {}).items():
@@ -120,6 +122,7 @@ def normalize(prog: dict) -> dict:
     """Fill optional fields so that TLC sees uniform records."""
     for t in prog["tasks"].values():
         t.setdefault("h", 0)
+        t.setdefault("scope", "BACKEND")
         t.setdefault("units", {})
     return prog
 
@@ -187,7 +190,8 @@ def random_program(rng, ns: str, max_kids: int = 4, p_fail: float = 0.25, plan: 
     tasks = {
         "leaf": {"units": units(0.7), "vers": [{"kind": "leaf", "add": 1, "children": []},
                                                 {"kind": "leaf", "add": 11, "children": []}]},
-        "leaf2": {"units": units(0.4), "vers": [{"kind": "leaf", "add": 2, "children": []}]},
+        "leaf2": {"units": units(0.4), "scope": rng.choice(["BACKEND", "BACKEND", "NONE", "CSE"]),
+                  "vers": [{"kind": "leaf", "add": 2, "children": []}]},
         "use": {"units": units(0.6), "h": 1, "vers": [{"kind": "leaf", "add": 4, "children": []}]},
         "bad": {"units": units(0.5), "vers": [{"kind": "fail" if rng.random() < 0.7 else "noexec", "add": 0,
                                                 "children": []},
